@@ -1,7 +1,7 @@
 """C17 — byte and file serialisation is lossless and zero-padded.
 
 lines (TAB separated; bits are 0/1 strings, byte strings lower-case hex, '-' = empty):
-  C17 obj <cls> <kind> <data> <off> <len> <chunk> <sink>
+  C17 obj <cls> <kind> <data> <off> <len> <chunk> <sink> <lsb0>
         kind  bin | cat | slc                      in-memory object (data = bits; cat: built as a[:off] + a[off:],
                                                    slc: built as a[off:off+len])
               bytes | bytearray | mview            cls(bytes=data, offset=off, length=len)
@@ -9,10 +9,11 @@ lines (TAB separated; bits are 0/1 strings, byte strings lower-case hex, '-' = e
               fname | handle                       cls(filename=path, …) / cls(open(path,'rb'), …), file holds data
         off, len  None | int ;  chunk  '-' (tofile as shipped) | override in bits (needs the BITSTRING_VERIF hook)
         sink  b | f  (tofile target: BytesIO / real file; the other one is written too and compared)
+        lsb0  0 | 1  (options.lsb0 while the object is built and serialised; cat/slc only with 0)
         -> ok <bits> <tobytes> <bytes property | !> <tofile> | err
-  C17 rt <wcls> <bits> <chunk> <rcls> <rkind>      write with tofile to a real file, read back length=len(bits)
+  C17 rt <wcls> <bits> <chunk> <rcls> <rkind> <lsb0>   write with tofile to a real file, read back length=len(bits)
         -> ok <bits> | err
-  C17 arr <dtype> <isz> <bits> <chunk>             Array data (items + trailing bits): tobytes, tofile
+  C17 arr <dtype> <isz> <bits> <chunk> <lsb0>      Array data (items + trailing bits): tobytes, tofile
         -> ok <tobytes> <tofile>
   C17 afrom <dtype> <isz> <init> <file> <n> <fk>   Array(dtype, init).fromfile(f, n); fk handle | bio | init (Array(dtype, f))
         -> ok <data bits> | err
@@ -43,21 +44,24 @@ ENV = "BITSTRING_VERIF_TOFILE_CHUNK_BITS"
 LEVEL_TEXT = ("Lean theorems (all sizes, all contents): tobytes has ceil(n/8) bytes < 256 whose bits are the input followed by exactly (8 - n%8)%8 zero bits; "
               "bitarray-style byte-at-a-time packing = that specification; the bytes property succeeds iff 8 | n and then equals tobytes; "
               "frombytes(tobytes(l))[0:n] = l and tobytes(frombytes(b)) = b; for every valid (offset, length) window the transcribed "
-              "_setbytes_with_truncation, BytesIO branch of _setauto (divmod/bytelength arithmetic) and _setfile branches return exactly drop/take of the "
-              "source bits (file: for non-empty files); the cut loop of tofile writes exactly tobytes for every chunk size that is a positive multiple of 8, "
-              "and the chunk constant extracted from the source on this run is such a multiple (generated obligation); Array tobytes/tofile/fromfile likewise. "
-              "Correspondence: lengths 0..70 x residues, all windows of 0..3-byte (thorough 0..7-byte) sources x 6 source kinds x 4 classes, hook-overridden "
-              "chunk sizes 8/64/1024 around their multiples, Array item sizes 1..64.")
+              "_setbytes_with_truncation, BytesIO branch of _setauto (divmod/bytelength arithmetic) and both _setfile branches (empty file included, "
+              "mutable classes included) return exactly drop/take of the source bits; the cut loop of tofile writes exactly tobytes for every chunk size that is a "
+              "positive multiple of 8, and the chunk constant extracted from the source on this run is such a multiple (generated obligation); write-then-read "
+              "round trip = identity; Array tobytes/tofile/fromfile likewise. PARTIAL: under options.lsb0 the tofile theorem is proved only for objects "
+              "that fit in one chunk; beyond that the code is wrong (known finding tofile-lsb0-chunks, decided witness theorem). "
+              "Correspondence: lengths 0..70 x residues, all windows of 0..3-byte (thorough 0..7-byte) sources x 6 source kinds x 4 classes x msb0/lsb0, "
+              "hook-overridden chunk sizes 8/16/24/64/1024/4096 around their multiples, Array item sizes 1..64.")
 LEVEL_NOTE = ("Trusted: Lean kernel (+propext, Classical.choice, Quot.sound); extract_C17.py reads the chunk constant it claims to read; bitarray's "
               "frombytes/tobytes/slicing, mmap and the file system are modelled as list operations and tied to the code only by the correspondence run; "
-              "lsb0 mode is not covered (BytesIO/file windows use the mode-dependent getslice).")
+              "Array.fromfile and the Array round trip are exercised in msb0 only; invalid (offset, length) windows are C15's and are not generated.")
 TECHNIQUE = "Lean 4 proof (padding, window arithmetic, chunk-loop invariant) + generated constant obligation + exhaustive small-domain correspondence"
 RULE = ("cases = corpus + known-finding witnesses + exhaustive small domains + seeded random (harness/props/C17.py gen); distinct = distinct case lines; "
         "non-trivial = non-empty data. tofile chunk constant extracted this run: %d bits (%s). %s"
         % (CHUNK, GEN_INFO["tofile_chunk_expr"],
-           "Chunk-override hook present: small-chunk cases (8/64/1024 bits) run." if HOOK else
+           "Chunk-override hook present: small-chunk cases (8..4096 bits) run." if HOOK else
            "Chunk-override hook NOT present in this tree: the small-chunk cases are skipped; the quick tier instead performs one real crossing of the chunk boundary (digest comparison, not run through the model)."))
-ASSUMPTIONS = ["msb0 mode only", "valid (offset, length) windows only: 0 <= offset, 0 <= length, offset + length <= 8 * size (invalid windows belong to C15)"]
+ASSUMPTIONS = ["valid (offset, length) windows only: 0 <= offset, 0 <= length, offset + length <= 8 * size (invalid windows belong to C15)",
+               "Array.fromfile / Array round trip in msb0 only (under lsb0 fromfile goes through the mode-dependent Bits.__getitem__)"]
 
 # ---------------------------------------------------------------- scratch files (outside /repo and /verif)
 _TMP = None
@@ -187,17 +191,26 @@ def _array(dt: str, isz: int, bits: str):
     return bitstring.Array(dt, Bits(bin=bits)) if bits else bitstring.Array(dt)
 
 
+_LSB0_FIELD = {"obj": 9, "rt": 7, "arr": 6}                    # position of the lsb0 flag; other ops run in msb0
+
+
+def _lsb0(f) -> bool:
+    return f[1] in _LSB0_FIELD and f[_LSB0_FIELD[f[1]]] == "1"
+
+
 def execute(line: str):
-    with options(lsb0=False), _Files() as files:
-        return _execute(line.split(SEP), files)
+    f = line.split(SEP)
+    with options(lsb0=_lsb0(f)), _Files() as files:
+        return _execute(f, files)
 
 
 def _execute(f, files):
     op = f[1]
     extra = {}
     if op == "obj":
-        _, _, cls, kind, data, off, ln, chunk, sink = f
+        _, _, cls, kind, data, off, ln, chunk, sink, _m = f
         off, ln = _opt(off), _opt(ln)
+        assert _m == "0" or kind not in ("cat", "slc")
         try:
             x = _build(cls, kind, data, off, ln, files)
         except AssertionError:
@@ -225,7 +238,7 @@ def _execute(f, files):
             extra["hook_missing"] = True
         return out, extra
     if op == "rt":
-        _, _, wcls, bits, chunk, rcls, rkind = f
+        _, _, wcls, bits, chunk, rcls, rkind, _m = f
         b = unwire(bits)
         x = mk(wcls, b)
         p = files.new()
@@ -259,17 +272,19 @@ def _execute(f, files):
             extra["exc"] = type(e).__name__
         return out, extra
     if op == "arr":
-        _, _, dt, isz, bits, chunk = f
+        _, _, dt, isz, bits, chunk, _m = f
         b = unwire(bits)
-        a = _array(dt, int(isz), b)
+        with options(lsb0=False):                                # the Array itself is built and inspected in msb0;
+            a = _array(dt, int(isz), b)                          # only the serialisation runs in the case's mode
         try:
             tb = a.tobytes()
             w = _tofile(a, chunk, "b", files)
             out = "ok %s %s" % (hx(tb), hx(w))
             extra["other_sink"] = hx(_tofile(a, chunk, "f", files))
-            extra["data_after"] = wire(a.data.bin)
-            extra["len"] = len(a)
-            extra["trailing"] = wire(a.trailing_bits.bin)
+            with options(lsb0=False):
+                extra["data_after"] = wire(a.data.bin)
+                extra["len"] = len(a)
+                extra["trailing"] = wire(a.trailing_bits.bin)
         except Exception as e:                                   # noqa: BLE001
             return "err", {"exc": type(e).__name__}
         return out, extra
@@ -389,7 +404,7 @@ def oracle(line: str, out: str, extra: dict):
     f = line.split(SEP)
     op = f[1]
     if op == "obj":
-        _, _, cls, kind, data, off, ln, chunk, sink = f
+        _, _, cls, kind, data, off, ln, chunk, sink, _m = f
         bits = _obj_expected_bits(kind, data, _opt(off), _opt(ln))
         if bits is None:
             return None                                          # invalid window: C15's, nothing claimed here
@@ -409,7 +424,7 @@ def oracle(line: str, out: str, extra: dict):
             return f"class {extra.get('class')}, expected {cls}"
         return None
     if op == "rt":
-        _, _, wcls, bits, chunk, rcls, rkind = f
+        _, _, wcls, bits, chunk, rcls, rkind, _m = f
         b = unwire(bits)
         eb = _exp_bytes(b)
         if extra.get("file") != hx(eb) or extra.get("size") != len(eb):
@@ -420,7 +435,7 @@ def oracle(line: str, out: str, extra: dict):
             return "object read back compares unequal to the object written"
         return None
     if op == "arr":
-        _, _, dt, isz, bits, chunk = f
+        _, _, dt, isz, bits, chunk, _m = f
         b = unwire(bits)
         eb = _exp_bytes(b)
         exp = "ok %s %s" % (hx(eb), hx(eb))
@@ -486,21 +501,24 @@ def nontrivial(line: str) -> bool:
             "afrom": lambda: f[5] != "-", "art": lambda: f[4] != "-", "big": lambda: True}.get(f[1], lambda: True)()
 
 
-def _file_empty(line: str) -> bool:
-    """Region of the known finding: the read goes through Bits._setfile on a file of 0 bytes."""
+def _tofile_lsb0_multichunk(line: str) -> bool:
+    """Region of the known finding: options.lsb0 is on and the object is longer than the tofile chunk in force."""
     f = line.split(SEP)
-    if f[1] == "obj":
-        return f[3] in ("fname", "handle") and f[4] == "-"
-    if f[1] == "rt":
-        return f[6] in ("fname", "handle") and f[3] == "-"
-    if f[1] == "afrom":
-        return f[7] in ("handle", "init") and f[5] == "-"
-    if f[1] == "art":
-        return f[6] in ("handle", "init") and f[4] == "-"
-    return False
+    if f[1] == "obj" and f[9] == "1":
+        bits, chunk = _obj_expected_bits(f[3], f[4], _opt(f[5]), _opt(f[6])), f[7]
+    elif f[1] == "rt" and f[7] == "1":
+        bits, chunk = unwire(f[3]), f[4]
+    elif f[1] == "arr" and f[6] == "1":
+        bits, chunk = unwire(f[4]), f[5]
+    else:
+        return False
+    if bits is None:
+        return False
+    eff = int(chunk) if (chunk != "-" and HOOK) else CHUNK
+    return len(bits) > eff
 
 
-REGIONS = {"file_empty": _file_empty}
+REGIONS = {"tofile_lsb0_multichunk": _tofile_lsb0_multichunk}
 
 # ---------------------------------------------------------------- generators
 BYTE_KINDS = ["bytes", "bytearray", "mview", "bio", "fname", "handle"]
@@ -525,8 +543,12 @@ def _contents(rng, n: int):
     return ["1" * n, rand_bits(rng, n), format(rng.getrandbits(n) | 1, "0%db" % n)]
 
 
-def _obj(cls, kind, data, off, ln, chunk, sink):
-    return SEP.join(["C17", "obj", cls, kind, data, str(off), str(ln), chunk, sink])
+def _obj(cls, kind, data, off, ln, chunk, sink, lsb0="0"):
+    return SEP.join(["C17", "obj", cls, kind, data, str(off), str(ln), chunk, sink, lsb0])
+
+
+def _mode(rng, p=0.25) -> str:
+    return "1" if rng.random() < p else "0"
 
 
 def _mem_case(rng, cls, bits, chunk="-"):
@@ -534,7 +556,7 @@ def _mem_case(rng, cls, bits, chunk="-"):
     r = rng.random()
     sink = rng.choice("bf")
     if r < 0.5:
-        return _obj(cls, "bin", wire(bits), None, None, chunk, sink)
+        return _obj(cls, "bin", wire(bits), None, None, chunk, sink, _mode(rng, 0.5))
     if r < 0.75:
         return _obj(cls, "cat", wire(bits), rng.randint(0, n), None, chunk, sink)
     pre, post = rand_bits(rng, rng.randint(0, 9)), rand_bits(rng, rng.randint(0, 9))
@@ -582,10 +604,10 @@ def gen(rng, tier: str):
         for off, ln in _windows(8 * nb):
             for kind in BYTE_KINDS:
                 for cls in CLASS_NAMES:
-                    yield _obj(cls, kind, hx(_rbytes(rng, nb)), off, ln, "-", rng.choice("bf"))
+                    yield _obj(cls, kind, hx(_rbytes(rng, nb)), off, ln, "-", rng.choice("bf"), _mode(rng))
     for nb in range(full + 1, 8):                                 # quick: every window once, kind and class drawn
         for off, ln in _windows(8 * nb):
-            yield _obj(rng.choice(CLASS_NAMES), rng.choice(BYTE_KINDS), hx(_rbytes(rng, nb)), off, ln, "-", rng.choice("bf"))
+            yield _obj(rng.choice(CLASS_NAMES), rng.choice(BYTE_KINDS), hx(_rbytes(rng, nb)), off, ln, "-", rng.choice("bf"), _mode(rng))
     for _ in range(20000 if big else 2500):                       # larger sources, drawn windows biased to the edges
         nb = rng.choice([8, 9, 15, 16, 17, 31, 32, 33, 63, 64, 65, 127, 128, 129, 255, 256, 257, rng.randint(8, 300)])
         nbits = 8 * nb
@@ -594,7 +616,7 @@ def gen(rng, tier: str):
         ln = rng.choice([None, 0, 1, 7, 8, 9, nbits - o, nbits - o - 1, max(0, nbits - o - 8), rng.randint(0, nbits - o), rng.randint(0, nbits - o)])
         if ln is not None and (ln < 0 or o + ln > nbits):
             ln = nbits - o
-        yield _obj(rng.choice(CLASS_NAMES), rng.choice(BYTE_KINDS), hx(_rbytes(rng, nb)), off, ln, "-", rng.choice("bf"))
+        yield _obj(rng.choice(CLASS_NAMES), rng.choice(BYTE_KINDS), hx(_rbytes(rng, nb)), off, ln, "-", rng.choice("bf"), _mode(rng))
     # C. the tofile chunk boundary with the hook's override: below / at / above every multiple
     if HOOK:
         plan = [(8, _near(8, 5, 4) + list(range(0, 41))), (64, _near(64, 4, 9)), (1024, _near(1024, 3, 9) + _near(1024, 8, 2)[-5:] + [16387]),
@@ -609,22 +631,22 @@ def gen(rng, tier: str):
                     raw = _exp_bytes(bits) + _rbytes(rng, tail)
                     if tail == 0 and n % 8:
                         raw = raw[:-1] + bytes([raw[-1] | rng.getrandbits(8 - n % 8)])
-                    yield _obj(rng.choice(CLASS_NAMES), rng.choice(BYTE_KINDS), hx(raw), rng.choice([None, 0]), n, str(chunk), rng.choice("bf"))
+                    yield _obj(rng.choice(CLASS_NAMES), rng.choice(BYTE_KINDS), hx(raw), rng.choice([None, 0]), n, str(chunk), rng.choice("bf"), _mode(rng))
                     yield SEP.join(["C17", "rt", rng.choice(CLASS_NAMES), wire(bits), str(chunk), rng.choice(CLASS_NAMES),
-                                    rng.choice(["fname", "handle", "bio", "bytes"])])
+                                    rng.choice(["fname", "handle", "bio", "bytes"]), _mode(rng)])
                     isz = rng.choice(list(DTYPES))
-                    yield SEP.join(["C17", "arr", rng.choice(DTYPES[isz]), str(isz), wire(bits), str(chunk)])
+                    yield SEP.join(["C17", "arr", rng.choice(DTYPES[isz]), str(isz), wire(bits), str(chunk), _mode(rng)])
                     yield SEP.join(["C17", "art", rng.choice(DTYPES[isz]), str(isz), wire(bits), str(chunk), rng.choice(["handle", "bio"])])
     # D. round trips through a real file
     for n in list(range(0, 71)) + [127, 128, 129, 1023, 1024, 1025]:
         for rkind in ("fname", "handle", "bio", "bytes", "bytearray"):
             for bits in _contents(rng, n)[: 3 if big else 2]:
-                yield SEP.join(["C17", "rt", rng.choice(CLASS_NAMES), wire(bits), "-", rng.choice(CLASS_NAMES), rkind])
+                yield SEP.join(["C17", "rt", rng.choice(CLASS_NAMES), wire(bits), "-", rng.choice(CLASS_NAMES), rkind, _mode(rng)])
     # E. Array data incl. trailing bits
     for isz in DTYPES:
         for n in list(range(0, 71)) + [127, 128, 129, 1023, 1024, 1025]:
             for bits in _contents(rng, n)[:2]:
-                yield SEP.join(["C17", "arr", rng.choice(DTYPES[isz]), str(isz), wire(bits), "-"])
+                yield SEP.join(["C17", "arr", rng.choice(DTYPES[isz]), str(isz), wire(bits), "-", _mode(rng)])
                 yield SEP.join(["C17", "art", rng.choice(DTYPES[isz]), str(isz), wire(bits), "-", rng.choice(["handle", "bio"])])
     # F. Array.fromfile: file sizes 0..7 (thorough ..12) bytes x every count up to one past the end x item sizes
     for isz in DTYPES:
